@@ -284,7 +284,7 @@ func init() {
 			return s
 		},
 		Run:  c12Run,
-		Rule: "signatures built with reflect.FuncOf/MakeFunc (each is a recording helper): 0..2 (3 thorough) fixed parameters over {string,int,interface{},*struct,*other-struct} x tail {none, map[string]interface{}, hctx.Map, plush.HelperContext, hctx.HelperContext, an application-defined interface with the same method set, map+context in all typings, ...int, ...string, ...interface{}} x result shapes {(), (T), (T,nil), (T,err), (nil error), (error)}; calls with every argument list of length 0..3 (4 thorough) over {nil, \"s\", 1, hash literal, array literal, true, typed nil pointer and non-nil pointer from the context}, each argument wrapped in a logging identity helper, without a block, with a block and with an empty block, after an earlier completed helper call with more arguments. Reference binder: too many / non-assignable => error naming the callee, function not invoked; otherwise invoked exactly once with every supplied value unchanged (nil => zero value of the parameter type, also in the variadic tail), omitted trailing map => non-nil empty map of the call's own (every recording helper writes a mark into the map it received), omitted helper context => context whose HasBlock()/Block() reflect the call's block; argument log duplicate-free, in source order (a prefix when binding fails); first result is the value, non-nil trailing error fails the render. Omitted ordinary parameters are unspecified (either error or zero-fill accepted, supplied positions still checked). Polymorphic call sites: one method call node evaluated with receivers of 3 struct types (and a pointer) whose method sets put the name at different positions, in a loop over a mixed slice and as consecutive executions of one parsed template: the named method is invoked with the supplied argument. Chained calls: (T, error) functions and methods followed by nothing / field / method / nested path / index, in 8 statement forms, succeeding and failing: invoked once, arguments evaluated once, a failing call fails the render with the function's error wrapped and its value is never used. Non-trivial: at least one argument or an auto-supplied parameter.",
+		Rule: "signatures built with reflect.FuncOf/MakeFunc (each is a recording helper): 0..2 (3 thorough) fixed parameters over {string,int,interface{},*struct,*other-struct} x tail {none, map[string]interface{}, hctx.Map, plush.HelperContext, hctx.HelperContext, an application-defined interface with the same method set, map+context in all typings, ...int, ...string, ...interface{}} x result shapes {(), (T), (T,nil), (T,err), (nil error), (error)}; calls with every argument list of length 0..3 (4 thorough) over {nil, \"s\", 1, hash literal, array literal, true, typed nil pointer and non-nil pointer from the context}, each argument wrapped in a logging identity helper, without a block, with a block and with an empty block, after an earlier completed helper call with more arguments. Reference binder: too many / non-assignable => error naming the callee, function not invoked; otherwise invoked exactly once with every supplied value unchanged (nil => zero value of the parameter type, also in the variadic tail), omitted trailing map => non-nil empty map of the call's own (every recording helper writes a mark into the map it received), omitted helper context => context whose HasBlock()/Block() reflect the call's block; argument log duplicate-free, in source order (a prefix when binding fails); first result is the value, non-nil trailing error fails the render. Omitted ordinary parameters are unspecified (either error or zero-fill accepted, supplied positions still checked). Polymorphic call sites: one method call node evaluated with receivers of 3 struct types (and a pointer) whose method sets put the name at different positions, in a loop over a mixed slice and as consecutive executions of one parsed template: the named method is invoked with the supplied argument. Indexed receivers: methods called on rs[i] / m[k] / h.Rs[i] / a helper result's element with arguments that mention the indexed variable (the whole list, another element, len of it): the arguments arrive unchanged. Chained calls: (T, error) functions and methods followed by nothing / field / method / nested path / index, in 8 statement forms, succeeding and failing: invoked once, arguments evaluated once, a failing call fails the render with the function's error wrapped and its value is never used. Non-trivial: at least one argument or an auto-supplied parameter.",
 		Bound: func(th bool) string {
 			if th {
 				return "<=3 fixed parameters, <=4 arguments"
@@ -297,6 +297,7 @@ func init() {
 func c12Run(t *engine.T, shard string) {
 	if shard == "chain" {
 		c12Chain(t)
+		c12Indexed(t)
 		return
 	}
 	if shard == "poly" {
@@ -509,6 +510,35 @@ func c12One(t *engine.T, sig string, params []c12Param, variadic reflect.Type, r
 
 var _ = template.HTML("")
 
+// c12Indexed: arguments of a method called on an indexed element are evaluated in the caller's scope: the
+// indexed variable still names the whole collection there.
+func c12Indexed(t *engine.T) {
+	cases := []struct{ src, want string }{
+		{`<%= rs[1].Seen(rs) %>`, "1 sees list3"}, {`<%= rs[0].Seen(rs[2]) %>`, "0 sees rec2"}, {`<%= rs[2].Seen(len(rs)) %>`, "2 sees int3"},
+		{`<%= rs[0].Two(rs, rs[1]) %>`, "0 sees list3+0 sees rec1"}, {`<%= rm["a"].Seen(rm) %>`, "10 sees map2"}, {`<%= rm["a"].Seen(rm["b"]) %>`, "10 sees rec11"},
+		{`<%= hold.Rs[0].Seen(hold.Rs[1]) %>`, "0 sees rec1"}, {`<%= hold.Rs[1].Seen(hold.Rs) %>`, "1 sees list3"}, {`<%= rs[i1].Seen(rs[i1]) %>`, "1 sees rec1"},
+		{`<% let x = rs[1].Seen(rs) %><%= x %>`, "1 sees list3"}, {`<%= for (r) in rs { %><%= r.Seen(rs) %>,<% } %>`, "0 sees list3,1 sees list3,2 sees list3,"},
+		{`<%= for (i, r) in rs { %><%= rs[i].Seen(rs) %>,<% } %>`, "0 sees list3,1 sees list3,2 sees list3,"}, {`<%= idv(rs)[2].Seen(rs) %>`, "2 sees list3"},
+	}
+	for _, c := range cases {
+		c := c
+		t.Case("indexed-receiver "+q(c.src), true, func() (string, *engine.Fail) {
+			ctx := plush.NewContext()
+			rs := []*c12Rec{{0}, {1}, {2}}
+			ctx.Set("rs", rs)
+			ctx.Set("rm", map[string]*c12Rec{"a": {10}, "b": {11}})
+			ctx.Set("hold", struct{ Rs []*c12Rec }{rs})
+			ctx.Set("i1", 1)
+			ctx.Set("idv", func(v interface{}) interface{} { return v })
+			out, err := Render(c.src, ctx)
+			if err != nil || out != c.want {
+				return "", engine.Failf("args", "expected %q, got %q / %v", c.want, out, err)
+			}
+			return "invoked", nil
+		})
+	}
+}
+
 // c12Chain: the call's value is the function's first result and a non-nil trailing error fails the render,
 // also when a path (field, method, index) continues from the call, in every statement form.
 func c12Chain(t *engine.T) {
@@ -589,6 +619,25 @@ func c12Chain(t *engine.T) {
 		}
 	}
 }
+
+// c12Rec: a method on an indexed receiver, called with arguments that mention the indexed variable itself
+type c12Rec struct{ ID int }
+
+func (r *c12Rec) Seen(v interface{}) string {
+	switch x := v.(type) {
+	case []*c12Rec:
+		return fmt.Sprintf("%d sees list%d", r.ID, len(x))
+	case map[string]*c12Rec:
+		return fmt.Sprintf("%d sees map%d", r.ID, len(x))
+	case *c12Rec:
+		return fmt.Sprintf("%d sees rec%d", r.ID, x.ID)
+	case int:
+		return fmt.Sprintf("%d sees int%d", r.ID, x)
+	}
+	return fmt.Sprintf("%d sees %T", r.ID, v)
+}
+
+func (r *c12Rec) Two(a, b interface{}) string { return r.Seen(a) + "+" + r.Seen(b) }
 
 type c12Holder struct {
 	f func(string) (*Person, error)
